@@ -17,6 +17,7 @@ import (
 	"go.minekube.com/gate/pkg/edition/java/auth"
 	"go.minekube.com/gate/pkg/edition/java/config"
 	"go.minekube.com/gate/pkg/edition/java/proxy"
+	"go.minekube.com/gate/pkg/edition/java/proxy/message"
 )
 
 // Watchdog is the default time after which a silent peer counts as hung.
@@ -170,10 +171,20 @@ type Event struct {
 type Events struct {
 	Mgr      event.Manager
 	PreLogin string // "", "deny", "force-online", "force-offline"
+	// PluginMessages is the number of login plugin messages (channel "verif:prelogin", body 0x01) the
+	// PreLogin subscriber sends through the event's LoginPhaseConnection before setting its result.
+	// The proxy numbers them 1..n per connection; the login continues when all were answered.
+	PluginMessages int
 	proxy    *proxy.Proxy
 	mu       sync.Mutex
 	list     []Event
 }
+
+var preLoginChannel, _ = message.ChannelIdentifierFrom("verif:prelogin")
+
+type nopConsumer struct{}
+
+func (nopConsumer) OnMessageResponse([]byte) error { return nil }
 
 // NewEvents creates an event manager with recording subscribers. Call Bind after NewProxy.
 func NewEvents(preLogin string) *Events {
@@ -184,6 +195,13 @@ func NewEvents(preLogin string) *Events {
 	}
 	event.Subscribe(e.Mgr, 0, func(ev *proxy.PreLoginEvent) {
 		add(Event{Kind: "prelogin", Name: ev.Username()})
+		if lpc, ok := ev.Conn().(proxy.LoginPhaseConnection); ok {
+			for i := 0; i < e.PluginMessages; i++ {
+				if err := lpc.SendLoginPluginMessage(preLoginChannel, []byte{0x01}, nopConsumer{}); err != nil {
+					add(Event{Kind: "plugin-message-refused", Name: err.Error()})
+				}
+			}
+		}
 		switch e.PreLogin {
 		case "deny":
 			ev.Deny(&component.Text{Content: "denied by pre-login handler"})
